@@ -66,8 +66,13 @@ def _one(args):
     def actions(w, g):
         return [a for a in base_actions(w, g) if a in acts]
 
+    def hooks():
+        h = sm.SMHooks(specs, max_script, max_nest)
+        h.post_done = base != "StateMachine"  # the autonomous machine is also explored under "done(); next_state_now(X)" state functions
+        return h
+
     r = close(program, world, dict(sm.GHOST0), actions, sm.run_sm_action, mon,
-              lambda: sm.SMHooks(specs, max_script, max_nest), configure=sm.configure, stop_rules=owned, frozen_roots=("other",))
+              hooks, configure=sm.configure, stop_rules=owned, frozen_roots=("other",))
     cls = world["machine"].cls
     tun = {}
     for k, v in cls.ns.items():
